@@ -76,10 +76,14 @@ func NewSpecValidator(schema *spec.Schema, formats strfmt.Registry) *SpecValidat
 		o(schemaOptions)
 	}
 
+	defaultOptsMutex.Lock()
+	options := defaultOpts // copied under the lock that guards SetContinueOnErrors
+	defaultOptsMutex.Unlock()
+
 	return &SpecValidator{
 		schema:        schema,
 		KnownFormats:  formats,
-		Options:       defaultOpts,
+		Options:       options,
 		schemaOptions: schemaOptions,
 	}
 }
